@@ -19,6 +19,49 @@ var replayRepeatSrc string
 //go:embed replay_faults_test.go.tmpl
 var replayFaultsSrc string
 
+//go:embed replay_quoted_test.go.tmpl
+var replayQuotedSrc string
+
+// quotedParamChecks: BOUNDED check of the real scanner under C08 and C12 (see the template).
+func (e *Engine) quotedParamChecks(id string) []fdResult {
+	if id != "C08" && id != "C12" {
+		return nil
+	}
+	out := runPkgReplay(e, "scanner", replayQuotedSrc, "zz_govc_quoted_test.go", "TestGovcQuotedParams", "bare and quoted parameters on the real scanner:")
+	r := fdResult{Name: "scanner.Scanner/bounded/quoted-parameter#1", Props: []string{id},
+		Goal: "BOUNDED (30 bare/quoted document pairs: 6 notation/type parameters x 5 directive positions): quoting a parameter does not change the lexemes the scanner reports (bounded sample, not a proof)",
+		OK:   strings.Contains(out, "DONE tried=") && !strings.Contains(out, "REPRODUCED input"), Detail: out}
+	return []fdResult{r}
+}
+
+func runPkgReplay(eng *Engine, pkgDir, src, file, test, title string) string {
+	tmp, err := os.MkdirTemp("", "govcreplay")
+	if err != nil {
+		return ""
+	}
+	defer os.RemoveAll(tmp)
+	testFile := filepath.Join(tmp, file)
+	_ = os.WriteFile(testFile, []byte(src), 0o644)
+	ov := map[string]map[string]string{"Replace": {filepath.Join(eng.repo, pkgDir, file): testFile}}
+	ovb, _ := json.Marshal(ov)
+	ovFile := filepath.Join(tmp, "overlay.json")
+	_ = os.WriteFile(ovFile, ovb, 0o644)
+	cmd := exec.Command("go", "test", "-overlay", ovFile, "-vet=off", "-count=1", "-timeout", "120s", "-v", "-run", test, "./"+pkgDir)
+	cmd.Dir = eng.repo
+	cmd.Env = append(os.Environ(), "GOFLAGS=-mod=mod", "GOPROXY=off", "GOSUMDB=off", "GOTOOLCHAIN=local")
+	outB, _ := cmd.CombinedOutput()
+	var keep []string
+	for _, l := range strings.Split(string(outB), "\n") {
+		if strings.HasPrefix(l, "GOVC ") {
+			keep = append(keep, l[5:])
+		}
+	}
+	if len(keep) == 0 {
+		return "replay harness produced no result:\n" + string(outB)
+	}
+	return title + "\n" + strings.Join(keep, "\n") + "\n"
+}
+
 // replayFaults: C03 - build single-fault documents with the real code (injected test in package kit) and report a
 // document whose fault is accepted or located on another line.
 func replayFaults(eng *Engine) string {
